@@ -50,6 +50,8 @@ pub struct Peer {
     pub k: usize,
     /// further contacts it tells about (e.g. garbage such as port 0 or a broadcast address)
     pub extra_nodes: Vec<(Id, SocketAddrV4)>,
+    /// replies to write requests (acks and errors) carry ro=1 although lookups were answered normally
+    pub ro_put: bool,
 }
 
 impl Peer {
@@ -73,6 +75,7 @@ impl Peer {
             writes: vec![],
             k: 8,
             extra_nodes: vec![],
+            ro_put: false,
         }
     }
 }
@@ -204,7 +207,10 @@ pub fn default_reply(sh: &mut Shared, idx: usize, now: u64, from: SocketAddrV4, 
     let target = msg.target();
     let nodes = target.map(|t| krpc::compact_nodes(&closest_known(sh, idx, &t)));
     let p = &mut sh.peers[idx];
-    let opts = opts_for(p, from);
+    let mut opts = opts_for(p, from);
+    if p.ro_put && matches!(q.as_str(), "put" | "announce_peer" | "announce_signed_peer") {
+        opts.ro = Some(1);
+    }
     let mut r: Vec<(&str, Value)> = vec![("id", Value::bytes(&p.id))];
     match q.as_str() {
         "ping" => {}
@@ -259,7 +265,10 @@ pub fn default_reply(sh: &mut Shared, idx: usize, now: u64, from: SocketAddrV4, 
                 PutReply::Ack => {}
                 PutReply::Silent => return None,
                 PutReply::Error(code) => {
-                    return Some((p.delay, krpc::error(&msg.tid, code, "scripted error", &opts)));
+                    // heterogeneous implementations word the same code differently
+                    const WORDINGS: [&str; 5] = ["scripted error", "CAS mismatched, re-read value and try again.", "invalid CAS", "sequence number less than current", ""];
+                    let text = WORDINGS[(p.id[5] % 5) as usize];
+                    return Some((p.delay, krpc::error(&msg.tid, code, text, &opts)));
                 }
             }
         }
